@@ -4,6 +4,7 @@ import (
 	"bufio"
 	"bytes"
 	"fmt"
+	"go/constant"
 	"go/token"
 	"go/types"
 	"os"
@@ -461,6 +462,36 @@ func (bp *bprover) lowerBoundG(v ssa.Value, gc gctx, d int) (int64, bool) {
 					upd(lb - c)
 				}
 			}
+			// len(s) - len(after) - c with (_, after, found) := strings.Cut(s, sep) and found known true here:
+			// len(s) = len(before) + len(sep) + len(after), so the value is len(before) + len(sep) - c
+			if inner, isB := x.X.(*ssa.BinOp); isB && x.Op == token.SUB && inner.Op == token.SUB {
+				if sOp, isLen := lenOperand(inner.X); isLen {
+					if aOp, isLen2 := lenOperand(inner.Y); isLen2 {
+						if ex, isEx := aOp.(*ssa.Extract); isEx && ex.Index == 1 {
+							if call, isCall := ex.Tuple.(*ssa.Call); isCall {
+								if cal := call.Common().StaticCallee(); cal != nil && cal.Object() != nil && cal.Object().Pkg() != nil && (cal.Object().Pkg().Path() == "strings" || cal.Object().Pkg().Path() == "bytes") && cal.Name() == "Cut" && len(call.Common().Args) == 2 && bp.sameLen(call.Common().Args[0], sOp) {
+									if sep, isC := call.Common().Args[1].(*ssa.Const); isC && sep.Value != nil && sep.Value.Kind() == constant.String {
+										found := false
+										for _, g := range gc.guards() {
+											if ge, isE := g.cond.(*ssa.Extract); isE && ge.Tuple == ex.Tuple && ge.Index == 2 && g.onTrue {
+												found = true
+											}
+											if un, isU := g.cond.(*ssa.UnOp); isU && un.Op == token.NOT && !g.onTrue {
+												if ge, isE := un.X.(*ssa.Extract); isE && ge.Tuple == ex.Tuple && ge.Index == 2 {
+													found = true
+												}
+											}
+										}
+										if found {
+											upd(int64(len(constant.StringVal(sep.Value))) - c)
+										}
+									}
+								}
+							}
+						}
+					}
+				}
+			}
 		}
 	case *ssa.Phi:
 		if x.Comment == "rangeindex" {
@@ -598,6 +629,13 @@ func (bp *bprover) upperRelG(v ssa.Value, base ssa.Value, gc gctx, d int) (int64
 					upd(ub + c)
 				case token.SUB:
 					upd(ub - c)
+				}
+			}
+		} else if x.Op == token.SUB {
+			// X - Y with Y >= lb: at most the bound of X minus lb
+			if lbY, okY := bp.lowerBound(x.Y, at, d+1); okY {
+				if ub, ok := bp.upperRel(x.X, base, at, d+1); ok {
+					upd(ub - lbY)
 				}
 			}
 		}
